@@ -1,6 +1,6 @@
 #!/bin/bash
 # usage: archive_seed.sh <ID> <suffix> [worktree]  -- copies a verified seed's deliverables to seeded/<ID>-<suffix>/ and removes the scratch worktree + build output
-ID=$1; SFX=$2; WT=${3:-/root/scratch/seed7-$ID}; OUT=$WT-out; D=/verif/seeded/$ID-$SFX
+ID=$1; SFX=$2; WT=${3:-/root/scratch/${SEEDWAVE:-seed8}-$ID}; OUT=$WT-out; D=/verif/seeded/$ID-$SFX
 mkdir -p $D
 cp $OUT/patch.diff $OUT/demo.rs $OUT/meta.json $OUT/verify.log $D/ || exit 2
 git -C /repo worktree remove --force $WT; rm -rf $WT-target $OUT
